@@ -140,6 +140,13 @@ class Tr:
         self.drop = set(tgt.drop) | {a.arg for a in fdef.args.args if a.arg in PLUMBING}
         self.counter = 0
         self.raises = any(isinstance(n, ast.Raise) for n in ast.walk(fdef))
+        self.notes = []                    # (kind, source text) of every construct dropped as a value-level no-op
+
+    def note(self, kind, node):
+        """record a construct that is dropped from the value-level definition, for the reviewer's table `droppedGuards`"""
+        src = ' '.join(ast.unparse(node).split())
+        if (kind, src) not in self.notes:
+            self.notes.append((kind, src))
 
     def err(self, node, what):
         line = getattr(node, 'lineno', '?')
@@ -517,6 +524,8 @@ class Tr:
                 raise self.err(node, f'extra positional argument {i} of {d}')
         for k in node.keywords:
             if k.arg in PLUMBING or k.arg in p.drop_kw:
+                if k.arg in PLUMBING:
+                    self.note('destination-buffer', ast.copy_location(ast.Name(id=f'{k.arg}={ast.unparse(k.value)} in {d}(..)', ctx=ast.Load()), node))
                 continue
             if k.arg in p.kw:
                 if slots[p.kw[k.arg]] is not None:
@@ -603,6 +612,7 @@ class Tr:
             if isinstance(s.value, ast.Constant) and isinstance(s.value.value, str):
                 return self.S(rest, env, k, ind)                        # docstring
             if isinstance(s.value, ast.Call) and (dotted(s.value.func) or '').split('.')[-1] in GUARD_CALLS:
+                self.note('guard-helper', s)
                 return self.S(rest, env, k, ind)                        # guard helper: translator/guards.py
             if isinstance(s.value, ast.Call):
                 outs = [kw for kw in s.value.keywords if kw.arg == 'out']
@@ -663,8 +673,10 @@ class Tr:
             if tgt.id in self.drop:
                 # destination-buffer plumbing: `out = _get_output(...)`, `if out is None: out = output`
                 if isinstance(val, ast.Call) and (dotted(val.func) or '').split('.')[-1] == '_get_output':
+                    self.note('destination-buffer', s)
                     return self.S(rest, env, k, ind)
                 if isinstance(val, ast.Name) and val.id in self.drop:
+                    self.note('destination-buffer', s)
                     return self.S(rest, env, k, ind)
                 raise self.err(s, 'assignment to a destination-buffer name that is not `_get_output(...)`')
             txt, sort = self.E(val, env, env.get(tgt.id) if env.get(tgt.id) in ('K', 'vec') else None)
@@ -679,6 +691,7 @@ class Tr:
             if self._plumbing_test(s.test):
                 if self.assigned(s.body + s.orelse) and all(n in self.drop for n in self.assigned(s.body + s.orelse)) \
                         and not self.exits(s.body + s.orelse):
+                    self.note('destination-buffer', s)
                     return self.S(rest, env, k, ind)
                 raise self.err(s, 'test of a destination-buffer name guarding value-level code')
             # `if np.may_share_memory(a, out): a = a.copy()`: an aliasing guard around destination buffers - no value-level
@@ -690,6 +703,7 @@ class Tr:
                             and st.value.func.attr in IDENTITY_METHODS and not st.value.args and not st.value.keywords
                             and isinstance(st.value.func.value, ast.Name) and st.value.func.value.id == st.targets[0].id)
                 if all(noop(st) for st in list(s.body) + list(s.orelse)):
+                    self.note('aliasing-guard', s)
                     return self.S(rest, env, k, ind)
                 raise self.err(s, 'aliasing test guarding value-level code')
             # `if x is None:` on an optional parameter: a `match` that rebinds x as a scalar where it is not None
@@ -900,7 +914,8 @@ class Tr:
         if self.raises:
             ret = f'Option ({ret})'
         binders = ' '.join(f'({lname(p)} : {LEAN_TYPE[s]})' for p, s in t.params)
-        head = [f'/-- `mahotas/{t.module}: {t.name}({", ".join(argnames)})`, body translated from the current source -/',
+        notes = [f'-- dropped [{kind}] {t.module[:-3]}.{t.name}: {src}' for kind, src in self.notes]
+        head = notes + [f'/-- `mahotas/{t.module}: {t.name}({", ".join(argnames)})`, body translated from the current source -/',
                 f'def {t.lean} {t.family.binders} {t.family.extra_params}(P : {t.family.struct} {' '.join(t.family.tparams)}) {binders} : {ret} :=']
         return head + body
 
@@ -1080,6 +1095,28 @@ def translate_target(repo: Path, t: Target, trees: dict) -> list[str]:
     return Tr(t, f).definition()
 
 
+def _lean_str(x: str) -> str:
+    return '"' + x.replace('\\', '\\\\').replace('"', '\\"') + '"'
+
+
+def _dropped_table(prop: str, lines: list[str]) -> list[str]:
+    """the reviewer's table of everything the bodies of this file contained that the value-level definitions drop
+    (read back from the `-- dropped [...]` comments of the blocks, so that a block kept from the last run keeps its entries)"""
+    rows = []
+    for ln in lines:
+        m = re.match(r'-- dropped \[([\w-]+)\] ([\w\.]+): (.*)$', ln)
+        if m:
+            rows.append('(' + ', '.join(_lean_str(g) for g in (m.group(2), m.group(1), m.group(3))) + ')')
+    out = [f'/-- Reviewer\'s table: every statement of the bodies above that the value-level definitions DROP, as',
+           '    (function, kind, source text). `aliasing-guard`: `if np.may_share_memory(x, out): x = x.copy()` (no value-level',
+           '    meaning: only accepted when all it guards is `x = x.copy()`); `destination-buffer`: `out=` plumbing (C09 owns that',
+           '    convention); `guard-helper`: calls of the reviewed argument checks (translator/guards.py extracts them for C09/C11). -/',
+           f'def {prop}.droppedGuards : List (String × String × String) :=']
+    if not rows:
+        return out + ['  []', '']
+    return out + ['  [' + ',\n   '.join(rows) + ']', '']
+
+
 PRELUDE = ['/- GENERATED by translator/pybody.py. Shared prelude of the translated Python bodies (Generated/PyBodies<Cxx>.lean). Do not edit. -/',
            'namespace Mahotas.Generated.Py', '',
            '/-- `while c: body` under a reviewed iteration bound: at most `fuel` iterations (the tie theorems show the bound is not hit) -/',
@@ -1112,6 +1149,7 @@ def generate(repo: Path, outdir: Path) -> dict:
                     failed[t.key] = f'{type(e).__name__}: {e}'
                 names[t.key] = defined_names('\n'.join(lines))
                 s += [f'-- BEGIN block {t.key}'] + lines + [f'-- END block {t.key}', '']
+        s += _dropped_table(prop, s)
         s += ['end Mahotas.Generated.Py', '']
         changed = _write_if_changed(p, '\n'.join(s)) or changed
     res['pybodies_changed'] = changed
